@@ -70,8 +70,8 @@ CmpOk(e) == (e.tlen >= 64 /\ e.n >= 8) => e.cnt <= CmpBound(e.n)
 Init == tr \in 1..Len(Traces) /\ l = 1
 Next ==
   /\ l <= Len(Ev)
-  /\ IF Ev[l].e = "tree" THEN RBInvariants(Ev[l]) ELSE CmpOk(Ev[l])
   /\ l' = l + 1 /\ UNCHANGED tr
+  /\ IF Ev[l].e = "tree" THEN RBInvariants(Ev[l]) ELSE CmpOk(Ev[l])
 Spec == Init /\ [][Next]_vars
 Done == l > Len(Ev)
 Report ==
